@@ -183,6 +183,12 @@ def detection_stress():
     res += [b'"unterminated\n', b"'unterminated\n", b"@at\n", b"`tick\n", b"# c\n@x\n", b"%YAML 1.1\n%YAML 1.1\n---\na: 1\n",
             b"%YAML 3.0\n---\na: 1\n", b"%TAG ! x\n%TAG ! y\n---\na: 1\n", b"a: 1\x01\n", b"\x01a: 1\n", b"# \x07\n---\na: 1\n",
             b"# c\n" * 2800 + b"\x01\n---\na: 1\n", b"# c\n" * 5200 + b"\x01\n---\na: 1\n", b"k: v\n" * 2800 + b"\x01\n"]
+    # texts led by a character of U+0700..U+07FF (first byte 0xDC..0xDF: a MessagePack array16/32 or map16/32 marker) cut at
+    # every byte: the MessagePack trial runs out of input at every point of its fixed-width fields, payloads and markers
+    for text in ("\u078b: \u078b\n", "\u078b: [1, 2]\n\u0700: \u07ff\n", "- \u0712\u0710\n", "\u07c0\u07c1 = 1\n", "\u0700\u0701\u0702: x"):
+        b = text.encode()
+        for i in range(1, len(b) + 1):
+            res.append(b[:i])
     return res
 
 
